@@ -393,6 +393,12 @@ local function threegen()
   local ok, r2 = coroutine.resume(C, 20)
   return tostring(r1) .. "." .. tostring(ok) .. "." .. tostring(r2) .. "." .. coroutine.status(C)
 end
+local function xpover(n)
+  local t = mkt(n)
+  local ok, e = xpcall(function() return select('#', unpack(t)) end, function(m) return "H" end)
+  if ok then return e end
+  error("XPCAUGHT overflow was delivered to the nearest xpcall", 0)
+end
 local function run(id, f, ...)
   mark(id)
   local ok, r = pcall(f, ...)
@@ -409,7 +415,11 @@ func (e *Engine) demandProgram(t *core.Tape) (string, int) {
 	maxArg := 0
 	for i := 0; i < n; i++ {
 		id := fmt.Sprintf("d%d", i)
-		switch t.Choose(15) {
+		switch t.Choose(16) {
+		case 15:
+			a := argc[t.Choose(len(argc))]
+			maxArg = max(maxArg, a)
+			fmt.Fprintf(&sb, "run(%q, xpover, %d)\n", id+"xp", a)
 		case 12:
 			fmt.Fprintf(&sb, "run(%q, fewargs, %d)\n", id, t.Choose(70))
 		case 13:
@@ -507,6 +517,8 @@ func runUnder(proto *lua.FunctionProto, c cfgT, maxSteps int64) *progRun {
 		if s, ok := v.(lua.LString); ok {
 			str := string(s)
 			switch {
+			case strings.Contains(str, "XPCAUGHT"):
+				L.Push(lua.LString("LIMITX"))
 			case strings.Contains(str, "overflow"):
 				L.Push(lua.LString("LIMIT"))
 			case strings.Contains(str, "runtime error") || strings.Contains(str, "invalid memory") || strings.Contains(str, "index out of range"):
@@ -695,7 +707,10 @@ func (e *Engine) Run(t *core.Tape, cfg *core.Config, st *core.Stats) *core.Viola
 				sec := r0.sections[j]
 				secWithin = sec.frames+8 <= c.o.CallStackSize && sec.top+512+2*maxArg <= regLimit
 			}
-			if strings.Contains(r.trace[j], ",false,'LIMIT'") {
+			if strings.HasSuffix(id, "xp") && strings.Contains(r.trace[j], ",false,'LIMIT'") && !strings.Contains(r.trace[j], "'LIMITX'") {
+				return mk("limit-error-skipped-xpcall", "demand %s: the overflow inside the xpcall body was not delivered to that xpcall but to the enclosing pcall: %s", id, r.trace[j])
+			}
+			if strings.Contains(r.trace[j], ",false,'LIMIT") {
 				st.Fault("limit_error")
 				if secWithin {
 					return mk("state-unusable-after-limit", "demand %s stays within the limits on its own (reference: %d frames, registry top %d) but fails after earlier limit errors: %s", id, r0.sections[j].frames, r0.sections[j].top, r.trace[j])
